@@ -833,9 +833,22 @@ class Frame:
                 b = BV('', b & ALL, ALL)
             if not isinstance(a, BV) or not isinstance(b, BV):
                 return Opaque(f'({_tag(a)}{_opsym(op)}{_tag(b)})')
-            origin = a.origin or b.origin
             if a.origin and b.origin and a.origin != b.origin:
-                raise AnalysisError(f'{self.fn.fq}: bit operation mixes two symbolic flag words')
+                # two flag words: when one of them has only a few undecided bits (`flags & SCANDOTDIR`), case-split on those
+                ua, ub = bin(ALL & ~a.known).count('1'), bin(ALL & ~b.known).count('1')
+                if min(ua, ub) > 4:
+                    raise AnalysisError(f'{self.fn.fq}: bit operation mixes two symbolic flag words')
+                small_is_a = ua <= ub
+                v = a if small_is_a else b
+                unknown = ALL & ~v.known
+                while unknown:
+                    low = unknown & -unknown
+                    self._decide_bit(v.origin, low)
+                    v = self._refine(v)
+                    unknown = ALL & ~v.known
+                v = BV('', v.val, ALL)
+                a, b = (v, b) if small_is_a else (a, v)
+            origin = a.origin or b.origin
             return self._bv_op(op, a, b, origin)
         if isinstance(a, (Opaque, Obj)) or isinstance(b, (Opaque, Obj)):
             if isinstance(op, ast.Add) and (isinstance(a, (Tok, str)) or isinstance(b, (Tok, str)) or
